@@ -21,7 +21,7 @@ Has(r, f) == f \in DOMAIN r
 \* the part of an account record the model talks about
 NormAcct(a) ==
   [vf |-> a.vf, ex |-> a.ex, creds |-> a.creds,
-   sess |-> [s \in DOMAIN a.sess |-> [st |-> a.sess[s].st, exp |-> a.sess[s].exp, cred |-> a.sess[s].cred]],
+   sess |-> [s \in DOMAIN a.sess |-> [st |-> a.sess[s].st, exp |-> a.sess[s].exp, cred |-> a.sess[s].cred, rt |-> a.sess[s].rt]],
    api  |-> [s \in DOMAIN a.api |-> [exp |-> a.api[s].exp]],
    o2   |-> [o \in DOMAIN a.o2 |-> [st |-> a.o2[o].st, exp |-> a.o2[o].exp, iat |-> a.o2[o].iat, parent |-> a.o2[o].parent]]]
 
